@@ -85,8 +85,9 @@ def deliver(chunks, fire_after=()):
         raws.extend(raw_)
 
     for i, ch in enumerate(chunks):
-        codes = [*scr._partial_codes, *ch]
-        scr._partial_codes = []
+        # the real read path: get_available_raw_input() prepends what the last parse left over (an empty chunk is a wake-up without terminal bytes)
+        scr._get_input_codes = lambda ch=ch: list(ch)
+        codes = scr.get_available_raw_input()
         scr.parse_input(loop, cb, codes)
         if i in fire_after and loop.alarms:
             (h, f) = next(iter(loop.alarms.items()))
@@ -190,6 +191,20 @@ def check_split(ctx: Ctx, mode, stream, whole, max_cuts, timeouts):
                             ctx.violation("timeout-flush", f"C05/timeout-flush/{mode}/{sig_kind(stream)}", case, f"time-out after cut(s) {[cuts[f] for f in info['flushed']]}: got {ev}, expected {exp}")
                         ctx.count("timeout_executions")
                     ctx.obs(cuts, fires, ev)
+            # one wake-up without terminal bytes (a resize, another descriptor) after any one cut: nothing may be lost or invented
+            for j in range(k):
+                ctx.count("evaluations")
+                case = dict(case0, cuts=list(cuts), empty_after=j)
+                ch2 = chunks[: j + 1] + [[]] + chunks[j + 1 :]
+                try:
+                    ev, raws, info = deliver(ch2)
+                except Exception as e:
+                    ctx.violation("no-raise", f"C05/no-raise-split/{mode}/empty-read/{exc_site(e)}", case, repr(e))
+                    continue
+                if ev != whole or raws != list(stream):
+                    ctx.violation("split-invariant", f"C05/split-invariant/{mode}/empty-read/{sig_kind(stream)}", case, f"whole: {whole}; split at {cuts} with an empty read after cut {j}: {ev} (raw {raws})")
+                if info["max_outstanding"] > 1 or info["stale"]:
+                    ctx.violation("alarm-hygiene", f"C05/alarm-hygiene/{mode}/empty-read", case, f"alarms outstanding {info['max_outstanding']}, stale alarms fired at the end {info['stale']}")
 
 
 # ---------------------------------------------------------------- streams of part 2
